@@ -1229,6 +1229,78 @@ def self_registration_check(rng):
     return count, found
 
 
+def eager_listener_check(rng):
+    """A holder may read the shared parameter AT THE MOMENT it is told about the change (HMCOperator recomputes its
+    inverse mass matrix inside handle_parameter_changed).  What it reads then — directly or through a view / a
+    concatenation / a transformed parameter built in the same specification — must already be the new value.
+    -> (count, [finding])"""
+    torch = impl.load()
+    from torchtree.core.utils import process_object
+    found, count = [], 0
+
+    class Probe:
+        def __init__(self, watched):
+            self.watched, self.seen = watched, []
+
+        def handle_parameter_changed(self, variable, index, event):
+            self.seen.append(self.watched.tensor.detach().clone())
+
+        def handle_model_changed(self, model, obj, index):
+            pass
+    objs = [{"id": "p", "type": "Parameter", "tensor": [0.5, 1.5, 2.5]},
+            {"id": "v", "type": "ViewParameter", "parameter": "p", "indices": "1:"},
+            {"id": "t", "type": "TransformedParameter", "transform": "torch.distributions.ExpTransform", "x": "p"},
+            {"id": "c", "type": "CatParameter", "parameters": ["p", {"id": "q", "type": "Parameter", "tensor": [9.0]}], "dim": -1}]
+    for _ in range(3):
+        dic = {}
+        for o in copy.deepcopy(objs):
+            process_object(o, dic)
+        new = torch.tensor([rng.uniform(0.1, 3.0) for _ in range(3)])
+        want = {"p": new, "v": new[1:], "t": new.exp(), "c": torch.cat([new, torch.tensor([9.0])])}
+        probes = {}
+        for k in ("p", "v", "t", "c"):
+            dic[k].tensor                      # everything evaluated (and cached) once
+            probes[k] = Probe(dic[k])
+            dic[k].add_parameter_listener(probes[k])
+        dic["p"].tensor = new.clone()
+        for k, pr in probes.items():
+            count += 1
+            if not pr.seen:
+                found.append((f"C13:eager-listener:{type(dic[k]).__name__}:not-notified",
+                              f"a listener of `{k}' is not told that `p' was assigned", dict(holder=k)))
+            elif not torch.allclose(pr.seen[-1], want[k].to(pr.seen[-1].dtype), rtol=1e-12, atol=0):
+                found.append((f"C13:eager-listener:{type(dic[k]).__name__}:reads-the-old-value",
+                              f"a listener of `{k}' ({type(dic[k]).__name__}) that reads it when notified of the assignment "
+                              f"p = {new.tolist()} sees {pr.seen[-1].tolist()}, not {want[k].tolist()}", dict(holder=k)))
+    # the shipped eager holder: an HMC operator and an adaptor sharing the mass matrix by id
+    for dense in (False, True):
+        try:
+            dic = {}
+            mm = {"id": "mass", "type": "Parameter", "tensor": [[1.0, 0.0], [0.0, 1.0]] if dense else [1.0, 1.0]}
+            for o in ({"id": "y", "type": "Parameter", "tensor": [0.2, -0.1]},
+                      {"id": "d", "type": "Distribution", "distribution": "torch.distributions.Normal", "x": "y",
+                       "parameters": {"loc": [0.0, 0.0], "scale": [1.0, 2.0]}},
+                      {"id": "joint", "type": "JointDistributionModel", "distributions": ["d"]},
+                      mm,
+                      {"id": "hmc", "type": "HMCOperator", "joint": "joint", "parameters": ["y"], "weight": 1.0,
+                       "integrator": {"id": "lf", "type": "LeapfrogIntegrator", "steps": 2, "step_size": 0.1},
+                       "mass_matrix": "mass"}):
+                process_object(copy.deepcopy(o), dic)
+            new = torch.tensor([[2.0, 0.5], [0.5, 1.5]]) if dense else torch.tensor([rng.uniform(0.5, 3.0), rng.uniform(0.5, 3.0)])
+            dic["mass"].tensor = new.clone()
+            inv = dic["hmc"].inverse_mass_matrix
+            want = torch.linalg.inv(new) if dense else 1.0 / new
+            count += 1
+            if inv.shape != want.shape or not torch.allclose(inv, want, rtol=1e-9, atol=1e-12):
+                found.append((f"C13:eager-listener:HMCOperator:{'dense' if dense else 'diagonal'}-mass-matrix",
+                              f"the mass matrix shared by id with an HMC operator is assigned {new.tolist()} through the "
+                              f"registry: the operator's inverse mass matrix is {inv.tolist()}, not {want.tolist()}",
+                              dict(dense=dense)))
+        except Exception as e:      # noqa
+            found.append((f"C13:eager-listener:HMCOperator:raises:{type(e).__name__}", f"{type(e).__name__}: {str(e)[:160]}", {}))
+    return count, found
+
+
 # ------------------------------------------------------------------ json_factory round trips
 
 def factory_roundtrips(rng, n_rounds):
@@ -1605,6 +1677,9 @@ def run(tier, seed, replay=None):
         direct.setdefault(f[0], f)
     n_selfreg, sfound = self_registration_check(random.Random(seed + 3))
     for f in sfound:
+        direct.setdefault(f[0], f)
+    n_eager, efound = eager_listener_check(random.Random(seed + 4))
+    for f in efound:
         direct.setdefault(f[0], f)
     for f in static_checks(aliases):
         direct.setdefault(f[0], f)
